@@ -244,6 +244,34 @@ def shard_preset(sh):
                     vals = m.group(1).split(',') if m and m.group(1) else []
                     if stored not in vals:
                         st.violation('rewritten-value-not-stored' if mode == 2 else 'value-not-stored', script, stored + ' among the values', snaps[1])
+    # a pre-set callback that is cleared again (cfg_set_validate_func2 with NULL) is gone: no invocation, the value is stored as given
+    for mode in (1, 2):
+        for (line, name, kind, val, idx) in calls:
+            if val == '~':
+                continue
+            snapref = 'A/' + '/'.join((enc(p.encode())[1:] + ('.0' if k < len(name.split('|')) - 1 else '')) for k, p in enumerate(name.split('|')))
+            c = Case(['init A W1 0', 'set_vf2 A %s 0' % enc(name.encode()), 'snapshot ' + snapref, 'w_mode %d' % mode, 'note call', line, 'snapshot ' + snapref])
+            r = drv.run([c])[0]
+            st.evaluations += 1
+            st.transitions += 1
+            st.validated += 1
+            script = 'schema W1 %s\n%s' % (W.spec(), c.script())
+            if r.status in ('crash', 'hang'):
+                st.violation('%s:%s' % (r.status, engine.sanitizer_summary(r.info)), script, '', engine.excerpt(r.info))
+                continue
+            snaps = r.all('snap ')
+            first_snap = next(k for k, l in enumerate(r.lines) if l.startswith('snap '))
+            logs = [l for l in r.lines[first_snap:] if l.startswith('cb w ')]
+            rc = [l for l in r.lines if l.startswith('r set') and not l.startswith('r set_vf')][-1]
+            cleared = r.first('r set_vf2')
+            st.outcome('cleared %d %s %s' % (mode, rc, snaps[-1]))
+            st.nontriv('cleared %d %s' % (mode, line))
+            m = re.search(r'vals=\((.*)\) comment', snaps[1])
+            vals = m.group(1).split(',') if m and m.group(1) else []
+            if cleared != 'r set_vf2 1':
+                st.violation('clearing-does-not-return-the-old-callback', script, 'r set_vf2 1', cleared or '')
+            elif logs or not rc.endswith(' 0') or val not in vals:
+                st.violation('cleared-preset-callback-still-used', script, 'no invocation, success, %s among the values' % val, ' '.join(logs) + ' ' + rc + ' ' + snaps[1])
     st.samples.append({'preset': 'cfg_setnint(il, 7, 1) with the pre-set callback in mode pass / veto / rewrite'})
     return st.result([drv])
 
